@@ -61,6 +61,10 @@ HARNESS = {
     'c10': {'args': [('ident', 'u8x16')], 'bound': 'none (all 16-byte idents)', 'assume': 'true', 'call': 'check_c10(&ident)', 'unwind': 6},
     'hash': {'args': [('buf', 'u8x5'), ('len', 'usize')], 'bound': 'name <= 5 bytes', 'assume': 'len <= 5', 'call': 'check_hash(&buf[..len])', 'unwind': 7},
 }
+# the stream parser's oracle is searched by a bounded NATIVE enumeration (Kani cannot run HashMap-based code here)
+STREAM_N = int(os.environ.get('VERIF_STREAM_CASES', '150000'))
+STREAM_SEED = 20261003
+NATIVE = {'stream': {'bound': '%d pseudo-random ELF64/LE files (seed %d) of <= 490 bytes from the family of kani/replay_src/stream_oracle.rs::enumerate: 0-3 section headers, 0-1 program header, escapes, bad links/names/sizes, truncation, one injected I/O fault; native enumeration, not Kani' % (STREAM_N, STREAM_SEED)}}
 for _i, _t in enumerate(['u8', 'u16', 'u32', 'u64', 'i32', 'i64']):
     HARNESS['c04_' + _t] = {'args': [('buf', 'u8x12'), ('len', 'usize'), ('off', 'usize'), ('s', 'u8')], 'bound': 'buffer <= 12 bytes (a read touches <= 8)',
                             'assume': 'len <= 12 && s < 4', 'call': 'check_c04(&buf[..len], off, %d, s)' % _i, 'unwind': 10}
@@ -149,7 +153,8 @@ def setup(tmp):
     checks = '\n'.join(l for l in checks.splitlines() if not l.startswith('//!')) + '\n'
     checks = checks.replace('include!("layout_oracle.rs");', layout_oracle())
     # route the hand-written Err(format!(..)) through the cheap path under Kani as well
-    open(os.path.join(tmp, 'src', 'lib.rs'), 'w').write(LIB_HEAD + checks + gen_harness_rs(hs))
+    open(os.path.join(tmp, 'src', 'lib.rs'), 'w').write(LIB_HEAD + checks + gen_harness_rs(hs) + '\n#[cfg(not(kani))] pub mod stream_oracle;\n')
+    shutil.copy(os.path.join(ROOT, 'kani', 'replay_src', 'stream_oracle.rs'), os.path.join(tmp, 'src', 'stream_oracle.rs'))
     open(os.path.join(tmp, 'Cargo.toml'), 'w').write('[package]\nname = "elf-verif-replay"\nversion = "0.1.0"\nedition = "2021"\n\n[dependencies]\nelf = { path = "%s" }\n\n[lints.rust]\nunexpected_cfgs = { level = "allow", check-cfg = [\'cfg(kani)\'] }\n\n[workspace]\n' % os.path.join(tmp, 'elf'))
     return hs
 
@@ -179,7 +184,48 @@ def replay_main(h, vals):
     lines.append('    }\n}')
     return '\n'.join(lines) + '\n'
 
+def search_native(harness, timeout=420):
+    tmp = tempfile.mkdtemp(prefix='verif_replay_')
+    try:
+        setup(tmp)
+        os.makedirs(os.path.join(tmp, 'src', 'bin'), exist_ok=True)
+        open(os.path.join(tmp, 'src', 'bin', 'stream_search.rs'), 'w').write('''use elf_verif_replay::stream_oracle::*;
+fn main() {
+    std::panic::set_hook(Box::new(|_| {}));
+    for (i, c) in enumerate(%d, %d).iter().enumerate() {
+        let r = std::panic::catch_unwind(std::panic::AssertUnwindSafe(|| check_stream(c)));
+        let msg = match r { Ok(Ok(())) => continue, Ok(Err(e)) => e, Err(_) => "the stream parser panicked".to_string() };
+        println!("FOUND {} cut={} fail_at={} short_read={} early_eof={} file={:?}", i, c.cut, c.fail_at, c.short_read, c.early_eof, c.file);
+        println!("MSG {}", msg);
+        std::process::exit(1);
+    }
+    println!("NONE");
+}
+''' % (STREAM_N, STREAM_SEED))
+        env = dict(os.environ, CARGO_NET_OFFLINE='true', CARGO_TARGET_DIR=os.path.join(tmp, 'target'), RUSTFLAGS='-Awarnings')
+        t0 = time.time()
+        rc_, out = run_group(['cargo', 'run', '--offline', '-q', '--release', '--bin', 'stream_search'], tmp, env, timeout)
+        wall = round(time.time() - t0, 1)
+        bound = NATIVE[harness]['bound']
+        if rc_ is None: return {'status': 'timeout', 'bound': bound, 'wall_s': wall}
+        m = re.search(r'^FOUND (\d+) cut=(\d+) fail_at=(\d+) short_read=(true|false) early_eof=(true|false) file=\[([0-9, ]*)\]', out, re.M)
+        if not m:
+            return {'status': 'no-counterexample-within-bound' if 'NONE' in out else 'search-failed', 'bound': bound, 'wall_s': wall, 'tail': out[-600:] if 'NONE' not in out else ''}
+        case = {'index': int(m.group(1)), 'cut': int(m.group(2)), 'fail_at': int(m.group(3)), 'short_read': m.group(4) == 'true', 'early_eof': m.group(5) == 'true', 'file': [int(x) for x in m.group(6).split(',') if x.strip()]}
+        main = ('use elf_verif_replay::stream_oracle::*;\nfn main() {\n    let c = StreamCase { file: vec!%s, cut: %d, fail_at: %d, short_read: %s, early_eof: %s };\n'
+                '    match check_stream(&c) {\n        Ok(()) => println!("replay: the real crate behaves as specified on this input"),\n'
+                '        Err(e) => { println!("REPLAY FAILS on the real crate: {}", e); std::process::exit(1); }\n    }\n}\n') % (json.dumps(case['file']), case['cut'], case['fail_at'], 'true' if case['short_read'] else 'false', 'true' if case['early_eof'] else 'false')
+        open(os.path.join(tmp, 'src', 'bin', 'replay.rs'), 'w').write(main)
+        r = subprocess.run(['cargo', 'run', '--offline', '-q', '--release', '--bin', 'replay'], cwd=tmp, env=env, capture_output=True, text=True, timeout=600)
+        panicked = r.returncode not in (0, 1) and 'panicked at' in r.stderr
+        return {'status': 'replayed-fails' if ((r.returncode == 1 and 'REPLAY FAILS' in r.stdout) or panicked) else 'replay-does-not-fail', 'bound': bound, 'wall_s': wall,
+                'inputs': case, 'replay_main': main, 'replay_output': (r.stdout[-1500:] + r.stderr[-500:]) if not panicked else ('REPLAY PANICS on the real crate: ' + r.stderr[-700:]),
+                'kani_cmd': 'cargo run --release --bin stream_search   (native enumeration)', 'lib_rs': open(os.path.join(tmp, 'src', 'lib.rs')).read() + '\n// ---- src/stream_oracle.rs\n' + open(os.path.join(tmp, 'src', 'stream_oracle.rs')).read()}
+    finally:
+        shutil.rmtree(tmp, ignore_errors=True)
+
 def search(harness, timeout=420):
+    if harness in NATIVE: return search_native(harness, timeout)
     tmp = tempfile.mkdtemp(prefix='verif_replay_')
     try:
         hs = setup(tmp)
@@ -217,6 +263,7 @@ PAIRING = [
     (r'^C09\.(get\.|next\.|iter)', lambda m: 'c09'),
     (r'^C10\.(verify_ident|parse_ident|from_ei_data)\.', lambda m: 'c10'),
     (r'^(C12\.sysv_hash|C11\.gnu_hash|proof:hash::sysv_hash|proof:hash::gnu_hash)', lambda m: 'hash'),
+    (r'^(C07|C08|C17)\.|^C05\.stream_|^C10\.open_stream|^(safety|proof):elf_stream::', lambda m: 'stream'),
     (r'^C14\.(note|iter)\.', lambda m: ['c14_a4', 'c14_a8', 'c14_a3']),
     (r'^C03\.(section_range|segment_range|section_data|segment_data)\.', lambda m: 'c03_range'),
     (r'^C1[36]\.VerNeedIterator\.next\.', lambda m: 'c13_need'),
@@ -231,7 +278,7 @@ def harnesses_for(obligation):
         if m:
             hs = f(m)
             hs = hs if isinstance(hs, list) else [hs]
-            return [h for h in hs if (h in HARNESS or h in struct_harnesses())]
+            return [h for h in hs if (h in HARNESS or h in NATIVE or h in struct_harnesses())]
     return []
 def harness_for(obligation):
     hs = harnesses_for(obligation)
